@@ -136,8 +136,62 @@ def compare(ctx, reqs, metas):
                                                                for k, v in out.items()}})
 
 
+WELL_KNOWN = ['mgmt', 'security', 'experimental', 'private', 'directory', 'snmpV2', 'snmpModules', 'snmpDomains', 'snmpProxys', 'internet', 'dod', 'org', 'mib-2',
+              'transmission', 'system', 'snmp', 'zeroDotZero']
+
+
+def twin_texts(picked, arc, n):
+    """a vendor module that has nodes of its own named like roots of the IETF tree (a vendor's `mgmt` or `security` branch) and
+    hangs nodes below them - in the module itself, before and after the declaration, and from a second module that imports them;
+    with the OIDs the parent references give"""
+    a = ['TWIN-%d-MIB DEFINITIONS ::= BEGIN' % n, 'IMPORTS enterprises, OBJECT-TYPE, Integer32 FROM SNMPv2-SMI;']
+    want = {}
+    for k, name in enumerate(picked):
+        a.append('twinEarly%d OBJECT IDENTIFIER ::= { %s 7 }' % (k, name))                      # used before it is declared
+        a.append('%s OBJECT IDENTIFIER ::= { enterprises %d %d }' % (name, arc, k + 1))
+        a.append('twinLate%d OBJECT-TYPE SYNTAX Integer32 MAX-ACCESS read-only STATUS current DESCRIPTION "d" ::= { %s 8 }' % (k, name))
+        root = '1.3.6.1.4.1.%d.%d' % (arc, k + 1)
+        want[('TWIN-%d-MIB' % n, name.replace('-', '_'))] = root
+        want[('TWIN-%d-MIB' % n, 'twinEarly%d' % k)] = root + '.7'
+        want[('TWIN-%d-MIB' % n, 'twinLate%d' % k)] = root + '.8'
+    a.append('END')
+    b = ['TWIN-%d-B-MIB DEFINITIONS ::= BEGIN' % n, 'IMPORTS %s FROM TWIN-%d-MIB;' % (', '.join(picked), n)]
+    for k, name in enumerate(picked):
+        b.append('twinFar%d OBJECT IDENTIFIER ::= { %s 9 }' % (k, name))
+        want[('TWIN-%d-B-MIB' % n, 'twinFar%d' % k)] = '1.3.6.1.4.1.%d.%d.9' % (arc, k + 1)
+    b.append('END')
+    return {'TWIN-%d-MIB' % n: '\n'.join(a) + '\n', 'TWIN-%d-B-MIB' % n: '\n'.join(b) + '\n'}, want
+
+
+def twin_failures(picked, arc, n):
+    import json
+    from impl import pipeline
+    texts, want = twin_texts(picked, arc, n)
+    bad = []
+    for be in ('json',):
+        st, out, _ = pipeline.compile_set(texts, backend=be)
+        for mn in texts:
+            if str(st.get(mn)) != 'compiled':
+                return ['%s: %s (%s)' % (mn, st.get(mn), getattr(st.get(mn), 'error', None))]
+        docs = {mn: json.loads(out[mn]) for mn in texts}
+        for (mn, sym), oid in sorted(want.items()):
+            got = (docs[mn].get(sym) or {}).get('oid')
+            if got != oid:
+                bad.append('%s::%s has OID %s, its parent references give %s' % (mn, sym, got, oid))
+    return bad
+
+
 def run(ctx):
     res = ctx.res
+    trng = __import__('random').Random(ctx.seed * 13 + 1)
+    for i in range(8 if ctx.tier == 'quick' else 120):
+        picked = trng.sample(WELL_KNOWN, trng.randint(1, 3))
+        arc = trng.randint(2, 60000)
+        res.case(('well-known-twins', tuple(picked), arc), True)
+        res.count('well-known-twins')
+        bad = twin_failures(picked, arc, i)
+        if bad:
+            res.oracle_failures.append({'key': 'oid', 'what': bad[0], 'input': {'texts': twin_texts(picked, arc, i)[0], 'twins': [picked, arc, i]}})
     res.rule = ('module sets from the shared generator: 1-3 modules, OID forests rooted at enterprises/mib-2/experimental/snmpModules '
                 'with digit-sharing arcs, parents declared earlier or later (70% of modules shuffled), imported parents across modules, '
                 'sub-identifiers spelled name / number / name(number), hyphenated names, all OID-bearing kinds; half of the sets printed '
@@ -222,6 +276,9 @@ def replay(payload):
     from impl import pipeline
     inp = payload['input']
     texts = inp['texts']
+    if inp.get('twins'):
+        bad = twin_failures(*inp['twins'])
+        return {'fails': bool(bad), 'what': bad[:3]}
     if inp.get('run_set'):
         return cg.replay_regenerated('C01', inp, lambda c, o: check_set(c, o, [], []), payload.get('key'))
     if inp.get('expect') == 'no-exception':
